@@ -118,7 +118,8 @@ def check(cx):
     r4 = cx.rule("C11.4", "MPT: in Btree::{update_cell, remove, remove_tuple} the cell taken out of the page flows into "
                  "CellDeallocator::deallocate_cell on every success path after it was taken; Btree::dealloc frees overflow "
                  "chains; Catalog::remove_relation frees the tree; a drained child page is freed; nothing reachable from "
-                 "Btree::balance* frees a cell's overflow chain (divider cells alias leaf chains)", floor=7)
+                 "Btree::balance* frees a cell's overflow chain (divider cells alias leaf chains); update_cell/remove/remove_tuple rebalance the "
+                 "page of the position they changed", floor=10)
     dc = "tree::cell_ops::CellDeallocator::deallocate_cell"
 
     def takes(h):
@@ -155,6 +156,23 @@ def check(cx):
         cx.verdict(dc not in bal_reach, r4, "balance:never-frees-cells", p.fn(bal[0]).where(), "deallocate_cell is not reachable from Btree::balance*",
                    "rebalancing reaches CellDeallocator::deallocate_cell (%s): an interior divider cell is a clone of a leaf cell and "
                    "shares its overflow chain, so freeing it puts pages of a live row on the free list (two owners)" % " -> ".join((path or [])[-4:]))
+    # rebalancing starts at the page the cell was taken from (the position found by the search), never at a page the caller
+    # passed in: VACUUM passes the root, and a rebalance that starts at the root never merges or frees the leaves it emptied
+    for name in ("update_cell", "remove", "remove_tuple"):
+        h = p.fns.get(BT + name)
+        if not h:
+            continue
+        bcs = [c for c in h.calls() if c.callee == BT + "balance"]
+        if not bcs:
+            cx.bad(r4, name + ":rebalances", h.where(), "Btree::%s no longer rebalances after changing a page" % name)
+            continue
+        for c in bcs:
+            prov = h.nearest_calls(op_local(c.args[1]))
+            from_pos = any(x[0] == "call" and x[1].endswith("Position::<P>::entry") for x in prov)
+            from_param = any(x[0] == "param" for x in prov)
+            cx.verdict(from_pos and not from_param, r4, name + ":rebalances-touched-page", c.where(), "balance(position.entry())",
+                       "Btree::%s rebalances a page that does not come from the position it changed (%s): emptied leaves are never merged "
+                       "or returned to the free list, and the next insert meets an empty sibling" % (name, sorted(prov)))
     h = cx.guard(r4, "balance_shallower", p.fn, BT + "balance_shallower")
     if h:
         dr = [c for c in h.calls() if c.callee.rsplit("::", 1)[-1] == "drain" and "storage::" in c.callee]
